@@ -46,6 +46,7 @@ fn tcp_cfg(init: u16, sizes: &[usize], script: Vec<(usize, u16)>) -> SCfg {
         menu: SMenu::default(),
         burst,
         script,
+        latency: 0,
         strategy: strat::strategy_config(Protocol::Tcp, 1, 1, 255, sizes.len(), Duration::ZERO, Duration::ZERO, Duration::ZERO, init),
     }
 }
@@ -74,6 +75,7 @@ fn dublin_v6_cfg(init: u16, m: u8, rounds: usize, script: Vec<(usize, u16)>) -> 
         menu: SMenu::default(),
         burst: vec![],
         script,
+        latency: 0,
         strategy: sc,
     }
 }
